@@ -30,10 +30,12 @@ const (
 	oPanic
 	oUnrouted
 	oCritical
+	oDiscover         // Discover Versions answered by the executor itself (no user handler): success
+	oCriticalDiscover // the same with a critical message extension: must fail like any other item
 	nOutcomes
 )
 
-var outcomeNames = []string{"success", "typed-error", "plain-error", "panic", "unrouted", "critical-extension"}
+var outcomeNames = []string{"success", "typed-error", "plain-error", "panic", "unrouted", "critical-extension", "builtin-discover", "critical-extension-on-builtin-discover"}
 
 type stringer struct{}
 
@@ -145,6 +147,8 @@ func buildRequest(b batchCase, reqID string, r *core.Rand) *kmip.RequestMessage 
 		id := fmt.Sprintf("%s/%d", reqID, i)
 		var bi kmip.RequestBatchItem
 		switch {
+		case o == oDiscover || o == oCriticalDiscover:
+			bi = kmip.RequestBatchItem{Operation: kmip.OperationDiscoverVersions, RequestPayload: &payloads.DiscoverVersionsRequestPayload{}}
 		case o == oUnrouted:
 			if i%2 == 0 {
 				bi = kmip.RequestBatchItem{Operation: kmip.OperationRecover, RequestPayload: &payloads.RecoverRequestPayload{UniqueIdentifier: id}}
@@ -161,7 +165,7 @@ func buildRequest(b batchCase, reqID string, r *core.Rand) *kmip.RequestMessage 
 				bi = kmip.RequestBatchItem{Operation: kmip.OperationArchive, RequestPayload: &payloads.ArchiveRequestPayload{UniqueIdentifier: id}}
 			}
 		}
-		if o == oCritical {
+		if o == oCritical || o == oCriticalDiscover {
 			bi.MessageExtension = &kmip.MessageExtension{VendorIdentification: "v", CriticalityIndicator: true, VendorExtension: ttlv.Struct{}}
 		}
 		if b.withIDs {
@@ -197,8 +201,8 @@ func model(b batchCase) expectation {
 		if o == oSuccess || o == oTyped || o == oPlain || o == oPanic {
 			e.calls = append(e.calls, i)
 		}
-		e.success[i] = o == oSuccess
-		if o != oSuccess && stop {
+		e.success[i] = o == oSuccess || o == oDiscover
+		if !e.success[i] && stop {
 			stopped = true
 		}
 	}
@@ -325,7 +329,7 @@ func Spec() *core.Spec {
 	return &core.Spec{
 		ID:    "C09",
 		Level: "exploration",
-		Rule: "exhaustive: every batch of length 0..3 (quick) / 0..4 (thorough) over per-item outcomes {success, typed error, plain error, panic (6 value kinds), unrouted operation, critical extension} " +
+		Rule: "exhaustive: every batch of length 0..3 (quick) / 0..4 (thorough) over per-item outcomes {success, typed error, plain error, panic (6 value kinds), unrouted operation, critical extension, built-in Discover Versions, critical extension on the built-in Discover Versions} " +
 			"x continuation option {unset, Continue, Stop, Undo} x {supported, unsupported} version x {matching, mismatching} batch count x with/without item ids, through BatchExecutor.HandleRequest with instrumented handlers; " +
 			"seeded random batches of up to 40 items; a sample sent through a real server connection so ids and counts cross the wire. Compared with a 30-line reference model (item count/order/echo, counts, version, success/failure, handler trace). " +
 			"distinct = distinct (batch description, path) combinations",
